@@ -219,6 +219,10 @@ class Sym:
             return Lin.of_term(("call", opname, ops))
         if isinstance(e, ast.Subscript):
             base = self.term(e.value)
+            if base[0] == "tuple" and not isinstance(e.slice, ast.Slice):
+                ix = self.lin(e.slice)
+                if ix.is_const() and ix.const.denominator == 1 and -len(base[1]) <= int(ix.const) < len(base[1]):
+                    return base[1][int(ix.const)]
             if isinstance(e.slice, ast.Slice):
                 lo = self.lin(e.slice.lower) if e.slice.lower is not None else None
                 hi = self.lin(e.slice.upper) if e.slice.upper is not None else None
@@ -260,6 +264,9 @@ class Sym:
                     elif k.arg == "signed":
                         signed = _constv(self, k.value, None)
                 return Lin.of_term(("tobytes", _t(self.lin(val)), n, order, signed))
+            up = self._unpack(e)
+            if up is not None:
+                return up
             if self.inline is not None:
                 r = self.inline(self, e)
                 if r is not None:
@@ -271,6 +278,48 @@ class Sym:
         if isinstance(e, ast.Await):
             return self.lin(e.value)
         return Lin.of_term(("expr", norm(e)))
+
+    def _unpack(self, e: ast.Call) -> Optional[Lin]:
+        """struct.unpack_from(fmt, buf, off) / struct.unpack(fmt, buf[a:b]) with a constant integer format:
+        a tuple term whose elements are the same int.from_bytes terms the manual decoding would give."""
+        name = norm(e.func)
+        if name not in ("struct.unpack_from", "unpack_from", "struct.unpack", "unpack") or len(e.args) < 2:
+            return None
+        fmt = _constv(self, e.args[0], None)
+        if not isinstance(fmt, str) or not fmt:
+            return None
+        order = "big"
+        body = fmt
+        if fmt[0] in "><!=@":
+            order = "little" if fmt[0] == "<" else "big"
+            if fmt[0] in "=@":
+                return None
+            body = fmt[1:]
+        else:
+            return None        # native order / alignment: not modelled
+        sizes = {"b": 1, "B": 1, "h": 2, "H": 2, "i": 4, "I": 4, "l": 4, "L": 4, "q": 8, "Q": 8, "x": 1}
+        if not body or any(ch not in sizes for ch in body):
+            return None
+        buf = e.args[1]
+        if name.endswith("unpack_from"):
+            base = self.term(buf)
+            off = self.lin(e.args[2]) if len(e.args) > 2 else Lin.of_const(0)
+            for k in e.keywords:
+                if k.arg == "offset":
+                    off = self.lin(k.value)
+        else:
+            t = self.lin(buf).single_term()
+            if t is None or t[0] != "slice" or t[2] is None:
+                return None
+            base, off = t[1], t[2]
+        elems = []
+        pos = off
+        for ch in body:
+            n = sizes[ch]
+            if ch != "x":
+                elems.append(Lin.of_term(("int", ("slice", base, pos, pos + Lin.of_const(n)), order, ch.islower())))
+            pos = pos + Lin.of_const(n)
+        return Lin.of_term(("tuple", tuple(elems), pos - off))
 
     # ------------------------------------------------------------------ facts
     def facts_of(self, atom: ast.expr, outcome: bool) -> List["Fact"]:
